@@ -100,7 +100,20 @@ def run_case(case, rng):
     case.family = fam
     case.params = dict(rep=rep, eps=eps, cap=cap, placeholder=ph, gamma=sp.gamma,
                        n=len(sp.states), label_kind=sp.meta.get("label_kind"))
-    mdp = Bd.build(sp, rep, shuffle_rng=rng)
+    sp_model = sp
+    if sp.flag and rep not in ("annotated",) and rng.random() < 0.12:
+        # an explicitly absorbing state never collects reward: its own reward entries are a don't-care, and a caller may put an
+        # infinite placeholder there ("nothing is defined after termination"). The reference keeps the finite spec.
+        import copy as _copy
+        sp_model = _copy.deepcopy(sp)
+        inf_ph = rng.choice([float("-inf"), float("inf")])
+        for s_ in sp_model.flag:
+            for a_ in sp_model.acts.get(s_, ()):
+                for t_, _p in sp_model.P.get((s_, a_), []):
+                    sp_model.R[(s_, a_, t_)] = inf_ph
+        case.count("models_with_infinite_placeholder_rewards_at_absorbing_states")
+        case.params["absorbing_reward_placeholder"] = repr(inf_ph)
+    mdp = Bd.build(sp_model, rep, shuffle_rng=rng)
     if rng.random() < 0.15:
         # an MDP handed over as matrices whose transition array is DENSE: rows of unavailable actions hold a
         # (meaningless) distribution too and only the action matrix says they are unavailable
